@@ -35,6 +35,7 @@ impl Node {
 
 const ENOENT: i32 = 2;
 const ENOTDIR: i32 = 20;
+const ENAMETOOLONG: i32 = 36;
 
 /// What `openat(base, p, O_RDONLY)` yields for a literal relative path without `..` segments.
 fn resolve<'a>(root: &'a Node, p: &str) -> Result<&'a Node, i32> {
@@ -49,6 +50,9 @@ fn resolve<'a>(root: &'a Node, p: &str) -> Result<&'a Node, i32> {
         };
         if seg.is_empty() || seg == "." {
             continue;
+        }
+        if seg.len() > 255 {
+            return Err(ENAMETOOLONG);
         }
         match entries.get(seg) {
             None => return Err(ENOENT),
@@ -117,8 +121,35 @@ fn build_tree() -> Tree {
     top.insert("h".into(), mk_file(&base.join("h")));
     std::fs::write(base.join("h.gz"), b"").unwrap();
     top.insert("h.gz".into(), Node::File { id: id_of(&base.join("h.gz")) });
+    // names at the limit of what a directory entry can hold: up to 252 bytes a `.gz` sibling
+    // fits (and exists here), from 253 on it cannot exist, so nothing can be substituted
+    for dir in [None, Some("sub")] {
+        for n in LONG_NAME_LENS {
+            let name = long_name(n);
+            let d = match dir { None => base.clone(), Some(x) => base.join(x) };
+            let entries = match dir {
+                None => &mut top,
+                Some(x) => match top.get_mut(x) { Some(Node::Dir { entries, .. }) => entries, _ => unreachable!() },
+            };
+            entries.insert(name.clone(), mk_file(&d.join(&name)));
+            if n + 3 <= 255 {
+                let gz = format!("{}.gz", name);
+                entries.insert(gz.clone(), mk_file(&d.join(&gz)));
+            }
+        }
+    }
     let root = Node::Dir { id: id_of(&base), entries: top };
     Tree { _tmp: tmp, base, root, secret }
+}
+
+const LONG_NAME_LENS: [usize; 6] = [200, 251, 252, 253, 254, 255];
+
+fn long_name(n: usize) -> String {
+    let mut s = format!("long{}-", n);
+    while s.len() < n {
+        s.push((b'a' + (s.len() % 26) as u8) as char);
+    }
+    s
 }
 
 fn tree() -> &'static Tree {
@@ -245,12 +276,13 @@ fn run_dir(c: &DirCase, sink: &mut Sink) -> (Verdict, Option<u64>, Value) {
             let kind_matches = match *errno {
                 ENOENT => e.kind() == std::io::ErrorKind::NotFound,
                 ENOTDIR => e.kind() == std::io::ErrorKind::NotADirectory,
+                ENAMETOOLONG => e.kind() == std::io::ErrorKind::InvalidFilename,
                 _ => false,
             };
             if e.raw_os_error() != Some(*errno) && !kind_matches {
                 return (Verdict::viol(format!("wrong-error|want={}", errno), format!("get({:?}) failed with {:?}, opening that path fails with errno {}", show(&c.path), e, errno)), None, desc);
             }
-            sink.count(if *errno == ENOENT { "failed_enoent" } else { "failed_enotdir" });
+            sink.count(match *errno { ENOENT => "failed_enoent", ENOTDIR => "failed_enotdir", _ => "failed_enametoolong" });
         }
         (Ok(n), Err(errno)) => {
             let id = (n.metadata().dev(), n.metadata().ino());
@@ -328,6 +360,14 @@ fn paths(max_segs: usize) -> Vec<String> {
         out.push(format!("./{}", s));
         out.push(format!("{}/a", s));
     }
+    for n in LONG_NAME_LENS {
+        let name = long_name(n);
+        out.push(name.clone());
+        out.push(format!("sub/{}", name));
+        out.push(format!("./{}", name));
+        out.push(format!("{}.gz", name));
+        out.push(format!("sub/{}/", name));
+    }
     out.sort();
     out.dedup();
     out
@@ -367,7 +407,7 @@ impl Prop for C19 {
         "exploration"
     }
     fn rule(&self, ctx: &Ctx) -> String {
-        format!("exhaustive: every path of <= {} segments over {{a, sub, .., ., ..., ..a, a.., empty, secret}} joined by '/', with and without a leading slash (trailing slashes = empty last segment), plus names around the .gz logic (file with sibling, file without, sibling that is a directory, sibling that is a character device, empty sibling, .gz-only name, directory with a .gz file sibling); a NUL byte inserted at every position of 300 of them; x Accept-Encoding {{absent, gzip, identity, gzip;q=0, *, gzip;q=0.5 vs identity;q=0.6}} x auto_gzip on/off; on a real tree with a 'secret' file next to the base directory. Oracle: in-memory POSIX relative-path resolver (self-checked against the kernel on every non-rejected path) giving the expected (dev, inode) or errno. Every regular file opened is also turned into an entity (`into_file_entity`) and read back: its bytes must be those of the file the path names (each file contains its own path). Non-trivial = distinct (path, Accept-Encoding, auto_gzip) judged; descriptor count of the process must return to its baseline", max_segs(ctx))
+        format!("exhaustive: every path of <= {} segments over {{a, sub, .., ., ..., ..a, a.., empty, secret}} joined by '/', with and without a leading slash (trailing slashes = empty last segment), plus names around the .gz logic (file with sibling, file without, sibling that is a directory, sibling that is a character device, empty sibling, .gz-only name, directory with a .gz file sibling, names of 200..255 bytes - with a sibling where one fits in a directory entry); a NUL byte inserted at every position of 300 of them; x Accept-Encoding {{absent, gzip, identity, gzip;q=0, *, gzip;q=0.5 vs identity;q=0.6}} x auto_gzip on/off; on a real tree with a 'secret' file next to the base directory. Oracle: in-memory POSIX relative-path resolver (self-checked against the kernel on every non-rejected path) giving the expected (dev, inode) or errno. Every regular file opened is also turned into an entity (`into_file_entity`) and read back: its bytes must be those of the file the path names (each file contains its own path). Non-trivial = distinct (path, Accept-Encoding, auto_gzip) judged; descriptor count of the process must return to its baseline", max_segs(ctx))
     }
     fn n_blocks(&self, _: &Ctx) -> usize {
         12 + 1 + 1
@@ -466,6 +506,6 @@ impl Prop for C19 {
         vec![("rejected_nul", 300), ("rejected_absolute", 300), ("rejected_dotdot", 300), ("opened_gz_sibling", 50), ("opened_plain", 300), ("opened_directory", 100), ("failed_enoent", 300), ("failed_enotdir", 100), ("gzip_wanted_but_no_usable_sibling", 100), ("resolver_self_checks", 100), ("descriptor_baseline_checked", 1)]
     }
     fn assumptions(&self) -> Vec<String> {
-        vec!["not judged: symlinks (explicitly followed by the crate), permissions (sandbox runs as root), names longer than NAME_MAX-3; the Accept-Encoding decision is taken from the real should_gzip (judged by C16)".into()]
+        vec!["not judged: symlinks (explicitly followed by the crate), permissions (sandbox runs as root); the Accept-Encoding decision is taken from the real should_gzip (judged by C16)".into()]
     }
 }
